@@ -1400,11 +1400,17 @@ static char *ex_txt(char *src, char **dst, char *excmd)
 static int ex_exec(char *ln)
 {
 	char loc[EXLEN], cmd[EXLEN], arg[EXLEN];
+	static int depth;
 	int ret = 0;
 	if (strlen(ln) >= EXLEN) {
 		ex_show("command too long");
 		return 1;
 	}
+	if (depth >= 64) {
+		ex_show("commands nested too deeply");
+		return 1;
+	}
+	depth++;
 	while (*ln) {
 		char *txt = NULL;
 		int idx;
@@ -1438,6 +1444,7 @@ static int ex_exec(char *ln)
 #endif
 		free(txt);
 	}
+	depth--;
 	return ret;
 }
 
